@@ -282,8 +282,9 @@ def build(sim, sc, source):
 # ------------------------------------------------------------------------------------------------
 # asyncio flavours
 class AsyncSource:
-    def __init__(self, sim, n, delays=None, fail=None):
+    def __init__(self, sim, n, delays=None, fail=None, odd=None):
         self.sim = sim
+        self.odd = odd or {}  # same meaning as Source.odd
         self.n = n
         self.delays = delays
         self.fail = fail
